@@ -366,7 +366,9 @@ def discharge_assert(f, sym, b, t):
             # bounded by a dominating comparison with a constant
             for (x, lab) in f.edge_dominators(b):
                 o, outcome = f.cond_struct(x, lab)
-                if o[0] == "bin" and o[1] in ("Lt", "Le") and outcome == "true" and o[3][0] == "const":
+                upper = o[0] == "bin" and ((o[1] in ("Lt", "Le") and outcome == "true") or (o[1] in ("Ge", "Gt") and outcome == "false"))
+                if upper and o[3][0] == "const":
+                    # `if x < c { .. x + 1 .. }` and `if x >= c { return } .. x + 1 ..` bound x the same way
                     if f.describe_origin(o[2]) == f.describe_origin(f.origin(rv["a"])):
                         return True, "G5: operand bounded by a dominating `< %s` test" % o[3][1].get("int"), ident
             name = f.describe_origin(f.origin(rv["a"]))
